@@ -31,10 +31,47 @@ pub fn run_history(calls: &[Call]) -> HistOut {
     let mut r = Shadow::default();
     let mut req: Vec<String> = Vec::new();
     let mut replies: Vec<String> = Vec::new();
+    // the most recent failed call and the C side's raw answer to it
+    let mut last_failed: Option<(Call, String)> = None;
     for (no, call) in calls.iter().enumerate() {
         let before = c.snapshot();
         let ans = r.step(call);
         let mut got = c.step(call);
+        if ans.failed {
+            last_failed = Some((call.clone(), got.clone()));
+        } else if call.name() != "last_error_message" {
+            // a successful call may have changed the pool: the failed call is no longer repeatable as it was
+            last_failed = None;
+        } else if got == "e" {
+            // The message taken is the one of the MOST RECENT failed call, however many failures went
+            // unread before it.  A failed call changes nothing, so it can be repeated on the same state:
+            // the message it leaves when nothing else is pending is what has just been read.
+            if let Some((fc, first)) = last_failed.take() {
+                let text = |p: *const c_char| unsafe { CStr::from_ptr(p) }.to_bytes().to_vec();
+                let taken = c.strs.values().next_back().map(|p| text(*p as *const c_char));
+                let again = c.step(&fc);
+                let fresh = unsafe {
+                    let p = cerr::last_error_message();
+                    if p.is_null() {
+                        None
+                    } else {
+                        let t = text(p);
+                        cstr::haystack_string_destroy(p as *mut c_char);
+                        Some(t)
+                    }
+                };
+                out.stats.push("error_message_compared".into());
+                if again != first || c.snapshot() != before {
+                    out.fails.push(("failed_call_not_repeatable".into(), format!("`{}` answered `{first}`, repeated on the unchanged pool `{again}`", fc.show())));
+                } else if taken != fresh {
+                    let s = |b: &Option<Vec<u8>>| b.as_ref().map(|b| String::from_utf8_lossy(b).into_owned());
+                    out.fails.push((
+                        "stale_error_message".into(),
+                        format!("call {no}: last_error_message gave {:?}, but the most recent failed call `{}` leaves {:?}", s(&taken), fc.show(), s(&fresh)),
+                    ));
+                }
+            }
+        }
         out.n_calls += 1;
         out.stats.push(format!("fn:{}", call.name()));
         req.push(call.show());
@@ -785,7 +822,7 @@ pub fn random_history(rng: &mut Rng, len: usize) -> Vec<Call> {
         }
         // after a failing call the message is read (most of the time; a stale error is legal too)
         let failed = w.sh.err && w.calls.len() > before && w.calls.last().map_or(false, |c| c.name() != "last_error_message");
-        if failed && !w.rng.chance(1, 10) {
+        if failed && !w.rng.chance(1, 4) {
             w.push("last_error_message", vec![]);
         }
     }
